@@ -28,7 +28,7 @@ from . import flow
 class Protocol:
     def __init__(self, clsn, flags, written_fields, reset_calls, set_calls, test_calls,
                  whole_object=("operator=", "m_swap", "swap"), implies_clear=None,
-                 status_field="status", preserving=None):
+                 status_field="status", preserving=None, sync_fields=None):
         """flags: names.  written_fields: {flag: set(field names whose write dirties flag)}
         reset_calls: {callee name: set(flags cleared)}; set_calls: {callee: flag};
         test_calls: {callee name: (flag, polarity)}  e.g. marked_empty -> ("*", False): true edge clears all."""
@@ -45,6 +45,9 @@ class Protocol:
         # preserving[(callee name)] = {flag: lemma}: writes made by this same-object
         # callee provably keep the claim `flag` true
         self.preserving = preserving or {}
+        # sync_fields[flag] = fields whose write re-synchronises the claim `flag`
+        # (the derived description is edited alongside the source description)
+        self.sync_fields = sync_fields or {}
 
 
 class Analysis:
@@ -178,6 +181,11 @@ class Analysis:
                 if how in ("assign", "call:operator=", "arg:swap", "call:m_swap", "call:swap", "call:ascii_load"):
                     status_writes.add(wn["i"])
 
+        sync_ids = set()
+        for wn, r, how in E.writes(f):
+            if r[0] == "this" and len(r) > 1 and r[1] in p.sync_fields.get(flag, ()):
+                sync_ids.add(wn["i"])
+
         def clear_set(fl):
             return fl == flag or flag in p.implies_clear.get(fl, ()) or fl == "*"
 
@@ -193,6 +201,9 @@ class Analysis:
                 env[SKEY] = "maybe"
                 env[DKEY] = False
                 return env
+            if n["i"] in sync_ids and n["i"] != write_id:
+                env = dict(env)
+                env[DKEY] = False
             if n["i"] == write_id:
                 if env.get(SKEY, "maybe") != "no":
                     env = dict(env)
